@@ -10,6 +10,6 @@ CONSTANT MaxInter = 2
 CONSTANT Acts <- AllActs
 CONSTANT RecordReads = TRUE
 CONSTANT HitSteps = FALSE
-SPECIFICATION Spec
+SPECIFICATION SimSpec
 INVARIANT BehaviourExport
 CHECK_DEADLOCK FALSE
